@@ -1377,16 +1377,29 @@ pub fn run(rng: &mut R, out: &mut Out) {
         for _ in 0..(6 * scale) {
             let mut p = Pset::new_v2();
             let steps = rng.gen_range(1..8);
+            let mut script = vec![];
             for _ in 0..steps {
                 let inp = pool.inputs().get(rng.gen_range(0..pool.inputs().len().max(1))).cloned().unwrap_or_default();
                 let outp = pool.outputs().get(rng.gen_range(0..pool.outputs().len().max(1))).cloned();
-                match rng.gen_range(0..7) {
-                    0 => p.add_input(inp),
-                    1 | 2 => { let pos = rng.gen_range(0..=p.inputs().len()); p.insert_input(inp, pos); }
-                    3 => { if let Some(o) = outp { p.add_output(o); } }
-                    4 => { if let Some(o) = outp { let pos = rng.gen_range(0..=p.outputs().len()); p.insert_output(o, pos); } }
-                    5 => { if !p.inputs().is_empty() { let i = rng.gen_range(0..p.inputs().len()); p.remove_input(i); } }
-                    _ => { if !p.outputs().is_empty() { let i = rng.gen_range(0..p.outputs().len()); p.remove_output(i); } }
+                let op = rng.gen_range(0..7);
+                let (pi, po, ri, ro) = (rng.gen_range(0..=p.inputs().len()), rng.gen_range(0..=p.outputs().len()), rng.gen_range(0..p.inputs().len().max(1)), rng.gen_range(0..p.outputs().len().max(1)));
+                script.push(format!("{}@{}/{}/{}/{}", op, pi, po, ri, ro));
+                // the editing functions are total: a panic (e.g. a count that no longer follows the maps) is a finding
+                let r = std::panic::catch_unwind(std::panic::AssertUnwindSafe(|| {
+                    let mut q = p.clone();
+                    match op {
+                        0 => q.add_input(inp),
+                        1 | 2 => q.insert_input(inp, pi),
+                        3 => { if let Some(o) = outp { q.add_output(o); } }
+                        4 => { if let Some(o) = outp { q.insert_output(o, po); } }
+                        5 => { if !q.inputs().is_empty() { q.remove_input(ri); } }
+                        _ => { if !q.outputs().is_empty() { q.remove_output(ro); } }
+                    }
+                    q
+                }));
+                match r {
+                    Ok(q) => p = q,
+                    Err(_) => { out.s("pset_editing_never_panics", false, || format!("steps {:?}", script)); break; }
                 }
             }
             out.count("pset.built_through_mutation_api");
